@@ -1061,6 +1061,51 @@ impl BRC20ProgEngine {
     }
 }
 
+#[cfg(feature = "verif-hooks")]
+impl BRC20ProgEngine {
+    /// Raw contents of every table, the heights and the block under construction, as JSON (verification hook).
+    pub fn verif_state(&self) -> serde_json::Value {
+        let h = |b: &Vec<u8>| hex::encode(b);
+        let kv = |l: &Vec<(Vec<u8>, Vec<u8>)>| -> Vec<(String, String)> {
+            l.iter().map(|(k, v)| (h(k), h(v))).collect()
+        };
+        let db = self.db.read();
+        let tables: Vec<serde_json::Value> = db
+            .verif_dump_tables()
+            .iter()
+            .map(|(name, d, c, m)| {
+                let hist = |l: &Vec<(Vec<u8>, Vec<(u64, Option<Vec<u8>>)>)>| -> Vec<(String, Vec<(u64, Option<String>)>)> {
+                    l.iter()
+                        .map(|(k, vs)| (h(k), vs.iter().map(|(b, v)| (*b, v.as_ref().map(|x| h(x)))).collect()))
+                        .collect()
+                };
+                serde_json::json!({"name": name, "db": kv(d), "cdb": hist(c), "cache": hist(m)})
+            })
+            .collect();
+        let blocks: Vec<serde_json::Value> = db
+            .verif_dump_block_tables()
+            .iter()
+            .map(|(name, d, m)| serde_json::json!({"name": name, "db": kv(d), "cache": kv(m)}))
+            .collect();
+        let (latest, max_block) = db.verif_heights();
+        drop(db);
+        let lbi = self.last_block_info.read();
+        serde_json::json!({
+            "tables": tables,
+            "blocks": blocks,
+            "latest": latest.map(|(n, hash)| (n, format!("{:x}", hash))),
+            "max_block_number": max_block,
+            "lbi": {
+                "waiting_tx_count": lbi.waiting_tx_count,
+                "timestamp": lbi.timestamp,
+                "hash": format!("{:x}", lbi.hash),
+                "gas_used": lbi.gas_used,
+                "log_index": lbi.log_index,
+            },
+        })
+    }
+}
+
 fn generate_block_hash(block_number: u64) -> B256 {
     // +1 to avoid zero hash
     let bytes = (block_number + 1).to_be_bytes();
